@@ -615,24 +615,11 @@ def gen_typed_grammar(rng):
     return g, types
 
 
-def _passes(e, rules_of, memo):
-    """rule names whose result may be the WHOLE value of e (an over-approximation)."""
-    from enginelib import kind
-    k = kind(e)
-    if k == 'call':
-        return {e[1]}
-    if k in ('seq', 'choice'):
-        out = set()
-        for x in e[1]:
-            out |= _passes(x, rules_of, memo)
-        return out
-    if k in ('group', 'skipgroup', 'opt', 'skipto'):
-        return _passes(e[1], rules_of, memo)
-    if k == 'over':
-        return _passes(e[2], rules_of, memo)
-    if k == 'named':
-        return _passes(e[3], rules_of, memo)     # @:(n:ref): the group's value is still the reference's
-    return set()
+def _passes(e, rules_of=None, memo=None):
+    """rule names whose result may be the WHOLE value of e, over-approximated by every rule the expression calls (an
+    override inside a closure, a group or an optional makes the reference's value the value of the rule: `{@:ref}+`)."""
+    from enginelib import kind, walk
+    return {x[1] for x in walk(e) if kind(x) == 'call'}
 
 
 def returners(g, types):
@@ -729,7 +716,8 @@ def expected_nodes(m, types, text, declared=None):
         if isinstance(ev, dict) and 'dict' in ev:
             # a dict-like AST: the rule's own named elements, or the AST of an inner untyped rule handed over
             if declared is None:
-                out['attrs'] = dict(sorted(ev['dict'].items()))
+                # (attributes whose name starts with an underscore are not public: canon_nodes leaves them out as well)
+                out['attrs'] = dict(sorted((k, x) for k, x in ev['dict'].items() if not k.startswith('_')))
                 out['ast'] = None
             else:
                 out['attrs'] = {f: ev['dict'].get(f) for f in fields}
@@ -811,7 +799,7 @@ def _brief(x):
     return x
 
 
-def node_oracle(obs, text, g, types, directives):
+def node_oracle(obs, text, g, types, directives, nested=False):
     """the property text on every node / dict of an implementation result -> list of (problems, what, info)"""
     rules = {n for n, _, _ in g['rules']}
     ret = returners(g, types)
@@ -864,7 +852,9 @@ def node_oracle(obs, text, g, types, directives):
                     problems.append('Node.text')
                 if x['nline'] != info[3]:
                     problems.append('Node.line')
-            if ok_span and outer is not None and not (outer[0] <= info[1] and info[2] <= outer[1]):
+            # (only without memoization: a memoized object handed on by a rule of a branch that was given up afterwards
+            #  keeps that invocation's name and offsets - still a rule that returned it, but not one of the final tree)
+            if ok_span and nested and outer is not None and not (outer[0] <= info[1] and info[2] <= outer[1]):
                 problems.append('outside-enclosing')
             if problems:
                 found.append((problems, 'node ' + x['node'] if isnode else 'dict', info))
@@ -988,7 +978,8 @@ def node_case(mr, g, types, text, flavour, settings):
     obs, declared = run_typed(g, types, text, flavour, settings)
     out = {'model': mo, 'impl': obs, 'twin_impl': rr[1], 'n1': None, 'n2': [], 'notext': []}
     if obs[0] == 'ok':
-        out['n2'], out['notext'] = node_oracle(obs[1], text, g, types, g.get('directives', {}))
+        out['n2'], out['notext'] = node_oracle(obs[1], text, g, types, g.get('directives', {}),
+                                               nested=settings.get('memoization') is False)
     if mo is None or mo[0] in ('recursion', 'timeout', 'model-error') or obs[0] in ('skip', 'timeout', 'recursion'):
         out['verdict'] = 'none'
         return out
@@ -1004,6 +995,12 @@ def node_case(mr, g, types, text, flavour, settings):
     elif mo[0] == 'ok':
         out['n1'] = diff_nodes(expected_nodes(mo[1], types, text, declared), obs[1])
     out['verdict'] = 'diff' if out['n1'] else 'same'
+    if out['n1'] and out['n1'][0].startswith(('info.', 'accessor.')) and settings.get('memoization') is not False:
+        # does the parseinfo of the node depend on memoization?  (a node served from the memo cache to a rule that hands
+        # it on is written in place: D7f)
+        again = node_case(mr, g, types, text, flavour, dict(settings, memoization=False))
+        out['memo_dependent'] = again['verdict'] == 'same'
+        out['impl_without_memoization'] = again['impl']
     return out
 
 
@@ -1033,6 +1030,17 @@ def shape_signature(g, types):
         elif 'call' in ks and 'named' not in ks:
             tags.add('handing-on')
     return '+'.join(sorted(tags))
+
+
+def n1_signature(res, g, types):
+    f, path, e, o = res['n1']
+    what = (f'model node tree differs from the engine model of the untyped twin at {path or "the result"}: '
+            f'{f} expected {e!r}, found {o!r}')
+    if res.get('memo_dependent'):
+        return ('N1:memo-dependent:node-parseinfo',
+                what + '; with memoization=False the implementation gives the expected parseinfo: the node was served from the '
+                       'memo cache to another invocation that handed it on and wrote its own parseinfo onto the shared object')
+    return f'N1:{f}:{shape_signature(g, types)}', what
 
 
 def shard_nodes(col, shard_i, ngrammars, ninputs):
@@ -1067,7 +1075,7 @@ def shard_nodes(col, shard_i, ngrammars, ninputs):
             t = rng.choice(['', '', ' ', '\n'] + gaps[-2:]) + t + rng.choice(['', '\n', '\r\n', ' \n', '\r'] + gaps[-1:])
             t = t[:70]
             settings = {} if 'parseinfo' in g['directives'] else {'parseinfo': True}
-            if rng.random() < 0.2:
+            if rng.random() < 0.3:
                 settings['memoization'] = False
             flavour = flavours[(gi + ii) % 3] if rng.random() < 0.8 else rng.choice(flavours)
             res = node_case(mr, g, types, t, flavour, settings)
@@ -1090,9 +1098,9 @@ def shard_nodes(col, shard_i, ngrammars, ninputs):
                 small = R.Case(g, t, None, E.Settings(**settings))
                 r2 = res
                 if reported <= 3:
-                    def bad(cc, want1=bool(res['n1']), want2=bool(res['n2'])):
+                    def bad(cc, want1=bool(res['n1']), want2=bool(res['n2']), md=bool(res.get('memo_dependent'))):
                         rb = node_case(mr, cc.g, types, cc.text, flavour, settings)
-                        return (want1 and bool(rb['n1'])) or (want2 and bool(rb['n2']))
+                        return (want1 and bool(rb['n1']) and bool(rb.get('memo_dependent')) == md) or (want2 and bool(rb['n2']))
                     small = R.shrink_case(small, bad, budget=150)
                     r2 = node_case(mr, small.g, types, small.text, flavour, settings)
                 used = {n for n, _, _ in small.g['rules']}
@@ -1104,10 +1112,10 @@ def shard_nodes(col, shard_i, ngrammars, ninputs):
                        'node_case': {'g': small.g, 'types': stypes, 'text': small.text, 'flavour': flavour, 'settings': settings}}
                 if r2['n1']:
                     f, path, e, o = r2['n1']
-                    col.violation(f'N1:{f}:{shape_signature(small.g, stypes)}',
-                                  f'model node tree differs from the engine model of the untyped twin at {path or "the result"}: '
-                                  f'{f} expected {e!r}, found {o!r}',
-                                  dict(rep, correspondence='N1 model nodes vs engine model of the untyped twin', difference=[f, path, e, o]))
+                    sig, what = n1_signature(r2, small.g, stypes)
+                    col.violation(sig, what, dict(rep, correspondence='N1 model nodes vs engine model of the untyped twin',
+                                                  difference=[f, path, e, o],
+                                                  impl_without_memoization=r2.get('impl_without_memoization')))
                 if r2['n2']:
                     problems, what, info = r2['n2'][0]
                     col.violation('oracle:nodeinfo:' + '+'.join(problems),
@@ -1127,10 +1135,8 @@ def replay_node_case(chk, nc):
     chk.case(['nodes-replay', json.dumps(nc, sort_keys=True, default=str)])
     rep = {'node_case': nc, 'impl': res['impl'], 'engine_model_on_twin': res['model']}
     if res['n1']:
-        f, path, e, o = res['n1']
-        chk.violation(f'N1:{f}:{shape_signature(nc["g"], nc["types"])}',
-                      f'model node tree differs from the engine model of the untyped twin at {path or "the result"}: '
-                      f'{f} expected {e!r}, found {o!r}', rep)
+        sig, what = n1_signature(res, nc['g'], nc['types'])
+        chk.violation(sig, what, dict(rep, difference=list(res['n1']), impl_without_memoization=res.get('impl_without_memoization')))
     if res['n2']:
         problems, what, info = res['n2'][0]
         chk.violation('oracle:nodeinfo:' + '+'.join(problems),
